@@ -8,6 +8,7 @@ import r_taskdb
 import r_storage
 import r_crypto
 import r_wire
+import r_servers
 
 PROPS = {}
 
@@ -108,6 +109,18 @@ PROPS["C14"] = {
     "explanation": "W1 the SyncOp type is exactly the documented operation format (no undo point, no old values); W2 writer and reader wire-name tables read from the serde impls agree with the documentation; W3 the history segment is serde_json of Version{operations: Vec<SyncOp>} filled from unsynced_operations through from_op; W4 conversion tables field by field; W5 no reordering between load and serialisation.",
     "not_decided": "RFC 3339 rendering/parsing of timestamps at other precisions (chrono/serde behaviour); acceptance of every well-formed foreign document",
     "assumptions": ["serde_json / chrono serde implementations behave as documented"],
+}
+PROPS["C08"] = {
+    "rules": [r_servers.rule_P1, r_servers.rule_P2, r_servers.rule_P3, lambda F, R: r_cloud.rule_K(F, R), r_servers.rule_A1_local],
+    "explanation": "P1 acceptance-guard path tables for the local, object-store and git backends; P2 identity of returned ids (child vs parent, Ok(id) is the stored fresh id); P3 HTTP mapping table against docs/http.md (endpoints, verbs, content types, headers, 409/404 mapping, urgency header); K1-K5 for the object store; A1 for the local backend.",
+    "not_decided": "conformance over long call sequences; byte-for-byte round trips of arbitrary payloads through SQLite/git/HTTP encodings; `changes nothing on rejection` as a state property",
+    "assumptions": ["a protocol-conformant sync server on the other side of the HTTP client"],
+}
+PROPS["C11"] = {
+    "rules": [r_servers.rule_A1_local, lambda F, R: r_cloud.rule_K(F, R, which=("K2", "K5", "K4")), r_servers.rule_GI],
+    "explanation": "A1 the local backend's accept path is one SQLite transaction (read, both writes, one commit); K5/K2 object store: the version object exists before `latest` can name it and nothing is acknowledged without the swap; GI git: commit of version file and meta precedes the push and Ok only on push()==true.",
+    "not_decided": "git's and SQLite's on-disk behaviour at a kill; restart-and-continue histories; the git backend's error exits between writing meta and committing",
+    "assumptions": [],
 }
 # reasons shown in MANIFEST.not_applicable for properties not (yet) claimed
 NOT_YET = {}
